@@ -515,11 +515,47 @@ func c09Equal(r *core.Run, eq *core.FuncInfo) {
 	var leaves []*core.FuncInfo
 	var walk func(f *core.FuncInfo, d int)
 	walk = func(f *core.FuncInfo, d int) {
-		if f == nil || seen[f] || d > 3 {
+		if f == nil || seen[f] || d > 6 {
 			return
 		}
 		seen[f] = true
 		r.Fn(f)
+		// wherever two float64 values meet on this chain they are compared with == (also inside a helper that answers
+		// (equal, ok)): a difference, an ordering or a rounding between them is a tolerance
+		{
+			finfo := f.Pkg.TypesInfo
+			isF64 := func(e ast.Expr) bool {
+				t := finfo.TypeOf(e)
+				if t == nil || core.ConstVal(finfo, e) != nil {
+					return false
+				}
+				b, ok := t.Underlying().(*types.Basic)
+				return ok && b.Kind() == types.Float64
+			}
+			ast.Inspect(f.Decl.Body, func(n ast.Node) bool {
+				be, ok := n.(*ast.BinaryExpr)
+				if !ok || !isF64(be.X) || !isF64(be.Y) {
+					return true
+				}
+				switch be.Op {
+				case token.EQL, token.NEQ:
+				default:
+					r.Sites++
+					r.Bad("C09.equal", core.ShortKey(f.Obj)+" compares numbers exactly", w.Pos(be.Pos()), "two column values normalised to float64 meet in '"+core.ExprString(be)+"', which is not plain equality (a tolerance, a rounding): every integer column goes through the same normalisation, so a small change of a large BIGINT compares equal — 'before image == after image, nothing to undo', and a foreign write within the tolerance is overwritten")
+				}
+				return true
+			})
+			// helpers answering (equal, ok) are part of the chain although their false is not a verdict
+			for _, cs := range w.Calls(f) {
+				if h := w.Info(cs.Static); h != nil && h != f && strings.Contains(h.Pkg.PkgPath, "/pkg/datasource/sql") && boolFirst(cs.Static) && len(cs.Call.Args) >= 2 {
+					if rs := cs.Static.Type().(*types.Signature).Results(); rs.Len() == 2 {
+						if b, isB := rs.At(1).Type().Underlying().(*types.Basic); isB && b.Kind() == types.Bool {
+							walk(h, d+1)
+						}
+					}
+				}
+			}
+		}
 		// a helper comparing two floating-point numbers must be exact equality: the normaliser turns every numeric
 		// kind (BIGINT counters, epoch milliseconds, amounts) into float64, a tolerance makes a small change of a
 		// large integer "no change" and the undo of that column is skipped
@@ -542,6 +578,14 @@ func c09Equal(r *core.Run, eq *core.FuncInfo) {
 		}
 		sp := &flow.Spec{W: w, Depth: 0, Split: []flow.Tag{"false:eq"}, Classify: func(pkg *packages.Package, call *ast.CallExpr, callee *types.Func) []flow.Tag {
 			if callee != nil && w.Info(callee) != nil && boolFirst(callee) && strings.Contains(callee.Pkg().Path(), "/pkg/datasource/sql") && len(call.Args) >= 2 {
+				// (a verdict: `equal` or `equal, err`; a second bool says whether the comparison applied at all —
+				// `equal, ok := numericEqual(x, y)` — and false then is not "differs")
+				rs := callee.Type().(*types.Signature).Results()
+				if rs.Len() == 2 {
+					if b, isB := rs.At(1).Type().Underlying().(*types.Basic); isB && b.Kind() == types.Bool {
+						return nil
+					}
+				}
 				return []flow.Tag{"eq"}
 			}
 			return nil
